@@ -65,6 +65,7 @@ func runMonitors(f family, e *env, s *vt.Sched) []violation {
 	m.c16()
 	m.c17()
 	m.c18()
+	m.c19()
 	monitorsExtra(m)
 	// stored jobs: identity of id / payload and "the jobs behind a bad entry still run" are C12's subject too
 	if len(e.adapters) > 0 && m.props["C12"] {
@@ -721,18 +722,50 @@ func (m *mon) c18() {
 			maxConc = c.v
 		}
 	}
-	// live pool goroutines over time
+	// pool goroutines the worker keeps, over time: alive and not yet told to stop (a goroutine
+	// whose stop payload is already in its channel is retired: it only waits to be scheduled)
+	tidNode := map[int]int{}
+	for _, ev := range m.s.Log {
+		if ev.Kind == "enter" && siteFunc(ev.Site) == "Node.Serve" {
+			if _, ok := tidNode[ev.Tid]; !ok {
+				tidNode[ev.Tid] = ev.Obj
+			}
+		}
+	}
 	live, peak := 0, 0
 	isPool := map[int]bool{}
+	retired := map[int]bool{}
+	curServer := map[int]int{}   // node -> goroutine serving it
+	stopAhead := map[int]int{}   // node -> stop payloads sent before its server took its first step
 	for _, ev := range m.s.Log {
 		if ev.Kind == "start" && strings.HasPrefix(siteName(ev.Site), "worker.initPoolNode/") {
 			isPool[ev.Tid] = true
+			n := tidNode[ev.Tid]
+			if n != 0 && stopAhead[n] > 0 {
+				stopAhead[n]--
+				retired[ev.Tid] = true
+				continue
+			}
+			if n != 0 {
+				curServer[n] = ev.Tid
+			}
 			live++
 			if live > peak {
 				peak = live
 			}
 		}
-		if ev.Kind == "exit" && isPool[ev.Tid] {
+		if ev.Kind == "send" && siteFunc(ev.Site) == "Node.Stop" {
+			n := ev.Owner
+			if t, ok := curServer[n]; ok && !retired[t] {
+				retired[t] = true
+				delete(curServer, n)
+				live--
+			} else {
+				stopAhead[n]++
+			}
+		}
+		if ev.Kind == "exit" && isPool[ev.Tid] && !retired[ev.Tid] {
+			retired[ev.Tid] = true
 			live--
 		}
 	}
